@@ -882,9 +882,12 @@ func (d decoder) https(b []byte) (HTTPS, error) {
 				result.ALPN = append(result.ALPN, string(proto))
 			}
 		case 2: // no-default-alpn
+			if !value.Empty() {
+				return result, ErrDecodeError
+			}
 			result.NoDefaultALPN = true
 		case 3: // port
-			if !value.ReadUint16(&result.Port) {
+			if !value.ReadUint16(&result.Port) || !value.Empty() {
 				return result, ErrDecodeError
 			}
 		case 4: // ipv4hint
